@@ -1,9 +1,314 @@
-//! STUB component for rhct -- to be written
+//! component 17: RHCT.  Case vocabulary documented in coq/theories/Spec/RhctS.v.
 use crate::sx::*;
+use crate::tcommon::*;
 use crate::Emit;
+use acpi_tables::rhct::*;
 
-pub fn run(_case: &Sx, _out: &mut Vec<Ev>) {
-    panic!("harness: component rhct not implemented")
+enum H {
+    I(IsaStringHandle),
+    C(CmoHandle),
 }
 
-pub fn gen(_tier: &str, _rng: &mut Rng, _emit: &mut Emit) {}
+/// the handles only expose their value through Debug: "IsaStringHandle(56)"
+fn debug_value(s: String) -> u64 {
+    let digits: String = s.chars().filter(|c| c.is_ascii_digit()).collect();
+    digits.parse().expect("harness: handle without a number")
+}
+
+fn href<'a>(hs: &'a [Option<H>], x: &Sx) -> &'a H {
+    let r = x.list();
+    if r.len() != 2 || r[0].num() != 104 {
+        panic!("harness: bad handle reference {}", x.show());
+    }
+    match hs.get(r[1].num() as usize) {
+        Some(Some(h)) => h,
+        _ => panic!("harness: reference to an operation that returned no handle: {}", x.show()),
+    }
+}
+
+fn isa_ref<'a>(hs: &'a [Option<H>], x: &Sx) -> &'a IsaStringHandle {
+    match href(hs, x) {
+        H::I(i) => i,
+        _ => panic!("harness: expected an ISA string handle: {}", x.show()),
+    }
+}
+
+fn cmo_ref<'a>(hs: &'a [Option<H>], x: &Sx) -> &'a CmoHandle {
+    match href(hs, x) {
+        H::C(c) => c,
+        _ => panic!("harness: expected a CMO handle: {}", x.show()),
+    }
+}
+
+pub fn run(case: &Sx, out: &mut Vec<Ev>) {
+    let c = case.list();
+    let ctor = c[0].list();
+    let (oem, tbl, rev) = hdr_args(ctor);
+    let mut t = RHCT::new(oem, tbl, rev, ctor[3].num());
+    let mut hs: Vec<Option<H>> = Vec::new();
+    for op in &c[1..] {
+        if let Sx::A(_) = op {
+            out.push(image(&t));
+            continue;
+        }
+        let o = op.list();
+        let n = |i: usize| o[i].num();
+        match n(0) {
+            1 => {
+                let s: &'static str =
+                    Box::leak(String::from_utf8(o[1].bytes()).expect("harness: ISA string is not UTF-8").into_boxed_str());
+                let h = t.add_isa_string(s);
+                out.push(Ev::Num(debug_value(format!("{:?}", h))));
+                hs.push(Some(H::I(h)));
+            }
+            2 => {
+                let scheme = match n(1) {
+                    0 => VirtualAddressScheme::Sv39,
+                    1 => VirtualAddressScheme::Sv48,
+                    2 => VirtualAddressScheme::Sv57,
+                    _ => panic!("harness: bad VirtualAddressScheme"),
+                };
+                t.add_mmu_node(scheme);
+                out.push(Ev::Num(0));
+                hs.push(None);
+            }
+            3 => {
+                let h = t.add_cmo(CmoNode::new(n(1) as u8, n(2) as u8, n(3) as u8));
+                out.push(Ev::Num(debug_value(format!("{:?}", h))));
+                hs.push(Some(H::C(h)));
+            }
+            4 => {
+                let mut hi = HartInfoNode::new(n(1) as u32, isa_ref(&hs, &o[2]));
+                for x in o[3].list() {
+                    hi = hi.with_cmo(cmo_ref(&hs, x));
+                }
+                t.add_hart_info(hi);
+                out.push(Ev::Num(0));
+                hs.push(None);
+            }
+            _ => panic!("harness: bad rhct op"),
+        }
+    }
+}
+
+fn rand_ctor(rng: &mut Rng) -> Sx {
+    let mut c = rand_hdr(rng);
+    c.push(a(rng.val(64)));
+    l(c)
+}
+
+fn h(k: usize) -> Sx {
+    l(vec![a(104), a(k as u64)])
+}
+
+fn earlier(prev: &[u64], kind: u64) -> Vec<usize> {
+    prev.iter().enumerate().filter(|(_, k)| **k == kind).map(|(i, _)| i).collect()
+}
+
+const ISA_ALPHABET: &[u8] = b"rv64imafdcbhsu_zicsrfencepbmtoqx0123456789 ";
+
+fn isa_string(rng: &mut Rng, len: usize) -> Sx {
+    let b: Vec<u8> = (0..len).map(|_| if rng.chance(1, 20) { rng.range(1, 127) as u8 } else { *rng.pick(ISA_ALPHABET) }).collect();
+    l(vec![a(1), bytes(&b)])
+}
+
+fn hart_info(rng: &mut Rng, prev: &[u64], ncmo: usize) -> Option<Sx> {
+    let is = earlier(prev, 1);
+    let cs = earlier(prev, 3);
+    if is.is_empty() {
+        return None;
+    }
+    let cmos: Vec<Sx> = if cs.is_empty() { vec![] } else { (0..ncmo).map(|_| h(*rng.pick(&cs))).collect() };
+    Some(l(vec![a(4), a(rng.val(32)), h(*rng.pick(&is)), l(cmos)]))
+}
+
+/// an operation of the kind (a hart info node needs an earlier ISA string: falls back to adding one)
+pub fn rand_op(rng: &mut Rng, kind: u64, prev: &[u64]) -> (Sx, u64) {
+    match kind {
+        1 => {
+            let len = match rng.below(3) {
+                0 => rng.below(4),
+                1 => rng.below(41),
+                _ => rng.range(20, 90),
+            };
+            (isa_string(rng, len as usize), 1)
+        }
+        2 => (l(vec![a(2), a(rng.below(3))]), 2),
+        3 => (l(vec![a(3), a(rng.val(8)), a(rng.val(8)), a(rng.val(8))]), 3),
+        _ => {
+            let ncmo = rng.below(7) as usize;
+            match hart_info(rng, prev, ncmo) {
+                Some(op) => (op, 4),
+                None => (isa_string(rng, 5), 1),
+            }
+        }
+    }
+}
+
+fn rand_history(rng: &mut Rng, len: u64) -> Vec<Sx> {
+    let mut prev: Vec<u64> = Vec::new();
+    let mut ops = Vec::new();
+    for _ in 0..len {
+        let k = 1 + rng.below(4);
+        let (op, kk) = rand_op(rng, k, &prev);
+        ops.push(op);
+        prev.push(kk);
+    }
+    ops
+}
+
+/// all sequences of length <= n over the items
+fn sequences(items: &[u64], n: usize) -> Vec<Vec<u64>> {
+    let mut res: Vec<Vec<u64>> = vec![vec![]];
+    let mut last: Vec<Vec<u64>> = vec![vec![]];
+    for _ in 0..n {
+        let mut next = Vec::new();
+        for s in &last {
+            for it in items {
+                let mut t = s.clone();
+                t.push(*it);
+                next.push(t);
+            }
+        }
+        res.extend(next.iter().cloned());
+        last = next;
+    }
+    res
+}
+
+pub fn gen(tier: &str, rng: &mut Rng, emit: &mut Emit) {
+    let thorough = tier == "thorough";
+    for _ in 0..4 {
+        let c = rand_ctor(rng);
+        emit.case(17, history(rng, c, vec![]));
+    }
+    // each kind alone (hart info after one ISA string)
+    for k in [1u64, 2, 3] {
+        for _ in 0..8 {
+            let c = rand_ctor(rng);
+            let (op, _) = rand_op(rng, k, &[]);
+            emit.case(17, history(rng, c, vec![op]));
+        }
+    }
+    // all interleavings of the 4 node kinds for histories of length <= 4 (a hart info node needs an earlier ISA string:
+    // sequences that cannot be built through the API are skipped)
+    for seq in sequences(&[1, 2, 3, 4], 4) {
+        let mut seen_isa = false;
+        let mut ok = true;
+        for k in &seq {
+            if *k == 1 {
+                seen_isa = true;
+            }
+            if *k == 4 && !seen_isa {
+                ok = false;
+            }
+        }
+        if !ok {
+            continue;
+        }
+        let c = rand_ctor(rng);
+        let mut prev: Vec<u64> = Vec::new();
+        let mut ops = Vec::new();
+        for k in seq {
+            let (op, kk) = rand_op(rng, k, &prev);
+            ops.push(op);
+            prev.push(kk);
+        }
+        emit.case(17, history(rng, c, ops));
+    }
+    // ISA strings of length 0..40 (both parities), alone and followed by another node
+    for len in 0..=40usize {
+        let c = rand_ctor(rng);
+        let s = isa_string(rng, len);
+        emit.case(17, history(rng, c, vec![s]));
+        let c = rand_ctor(rng);
+        let s = isa_string(rng, len);
+        let k = 1 + rng.below(4);
+        let (after, _) = rand_op(rng, k, &[1]);
+        emit.case(17, history(rng, c, vec![s, after]));
+    }
+    // hart info with 0..70 CMO handles
+    for n in 0..=70usize {
+        let c = rand_ctor(rng);
+        let s = isa_string(rng, 1 + n % 5);
+        let m = l(vec![a(3), a(rng.val(8)), a(rng.val(8)), a(rng.val(8))]);
+        let m2 = l(vec![a(3), a(rng.val(8)), a(rng.val(8)), a(rng.val(8))]);
+        let mmu = l(vec![a(2), a(rng.below(3))]);
+        let hi = hart_info(rng, &[1, 3, 2, 3], n).unwrap();
+        let k = 1 + rng.below(4);
+        let (after, _) = rand_op(rng, k, &[1, 3, 2, 3, 4]);
+        emit.case(17, history(rng, c, vec![s, m, mmu, m2, hi, after]));
+    }
+    // homogeneous runs of 300 entries of each kind (count 255 -> 256), a run crossing 65535 -> 65536 bytes
+    for k in [1u64, 2, 3, 4] {
+        let c = rand_ctor(rng);
+        let mut prev: Vec<u64> = Vec::new();
+        let mut ops = Vec::new();
+        if k == 4 {
+            ops.push(isa_string(rng, 3));
+            prev.push(1);
+        }
+        for _ in 0..300 {
+            let op = match k {
+                1 => isa_string(rng, 0),
+                4 => hart_info(rng, &prev, 0).unwrap(),
+                _ => rand_op(rng, k, &prev).0,
+            };
+            ops.push(op);
+            prev.push(k);
+        }
+        emit.case(17, history(rng, c, ops));
+    }
+    {
+        let c = rand_ctor(rng);
+        let ops = (0..8200).map(|_| l(vec![a(2), a(rng.below(3))])).collect(); // 8200 * 8 bytes > 65536
+        emit.case(17, history(rng, c, ops));
+    }
+    // (Spec/Layout.v `walk` recomputes the remaining length at every step: quadratic in the image size, hours for this
+    // 524 KB image under the C03 oracle -- the run is left to the other properties until the walker is made linear)
+    if thorough {
+        let c = rand_ctor(rng);
+        let ops = (0..65_540).map(|_| l(vec![a(2), a(rng.below(3))])).collect();
+        emit.case(17, history(rng, c, ops));
+    }
+    // random mixed histories with later nodes referring to earlier handles
+    let n = if thorough { 3000 } else { 200 };
+    for _ in 0..n {
+        let c = rand_ctor(rng);
+        let len = match rng.below(3) {
+            0 => rng.range(1, 6),
+            1 => rng.range(1, 24),
+            _ => rng.range(25, 120),
+        };
+        let ops = rand_history(rng, len);
+        emit.case(17, history(rng, c, ops));
+    }
+    // (the C05 oracle is cubic in the history length: the 300-operation random histories are left to the other properties)
+    for _ in 0..(if thorough { 20 } else { 3 }) {
+        let c = rand_ctor(rng);
+        let ops = rand_history(rng, 300);
+        emit.case(17, history(rng, c, ops));
+    }
+}
+
+/// C18: the node length and the ISA string length are u16 fields
+#[allow(dead_code)]
+pub fn gen18(_tier: &str, rng: &mut Rng, emit: &mut Emit) {
+    // ISA strings: the node is 8 + n + 1 bytes padded to even; 65525 is the last length that fits
+    for n in (65_520usize..=65_540).chain([70_000, 131_072]) {
+        let c = rand_ctor(rng);
+        let pre = l(vec![a(2), a(rng.below(3))]);
+        let s = isa_string(rng, n);
+        let after = l(vec![a(3), a(1), a(2), a(3)]);
+        emit.case(17, history(rng, c, vec![pre, s, after]));
+    }
+    // hart info: 12 + 4 * handles; 16380 handles (the ISA handle + 16379 CMO handles) is the last count that fits
+    for ncmo in (16_375usize..=16_390).chain([20_000, 65_535]) {
+        let c = rand_ctor(rng);
+        let s = isa_string(rng, 4);
+        let m = l(vec![a(3), a(rng.val(8)), a(rng.val(8)), a(rng.val(8))]);
+        let hi = hart_info(rng, &[1, 3], ncmo).unwrap();
+        let after = l(vec![a(2), a(1)]);
+        emit.case(17, history(rng, c, vec![s, m, hi, after]));
+    }
+}
